@@ -188,7 +188,17 @@ func foldAgainstModel(c *run.C, t reflect.Type, v reflect.Value, cfg *model.Conf
 	if basicSink {
 		sink = m.Basic()
 	}
-	err, ok := foldInto(c, v, c.R.Bool(), sink, opts...)
+	var err error
+	var ok bool
+	if len(opts) == 0 && c.R.P(1, 3) {
+		// one long-lived Iterator for the whole worker process: whatever it
+		// compiled and cached for a type in an earlier case (in whatever
+		// context) is used again here
+		err, ok = foldShared(c, v, sink)
+		c.Observe("folds_through_the_long_lived_iterator", 1)
+	} else {
+		err, ok = foldInto(c, v, c.R.Bool(), sink, opts...)
+	}
 	if !ok {
 		return nil, false
 	}
@@ -582,6 +592,11 @@ func c12Zoo(c *run.C) {
 	if t == reflect.TypeOf(zoo.InlineIface{}) {
 		ifaceTypes = []reflect.Type{reflect.TypeOf(zoo.Plain{}), reflect.TypeOf(map[string]int{}), reflect.TypeOf(map[string]interface{}{}), reflect.TypeOf(zoo.FoldVal{})}
 	}
+	if t == reflect.TypeOf(zoo.InlineThenPlain{}) || t == reflect.TypeOf([]zoo.InlineThenPlain{}) {
+		// the inline interface holds an object with slice fields; the same
+		// slice types follow as ordinary fields and below a plain interface
+		ifaceTypes = []reflect.Type{reflect.TypeOf(zoo.InlineCarrier{}), reflect.TypeOf(&zoo.InlineCarrier{}), reflect.TypeOf(map[string]interface{}{}), reflect.TypeOf(zoo.Plain{})}
+	}
 	if t == reflect.TypeOf(zoo.InlineOuter{}) || t == reflect.TypeOf(zoo.InlineInner{}) {
 		// nested inline interfaces: objects that hold (and are) further
 		// structs with inline interface fields
@@ -676,4 +691,28 @@ func holdsNilPtrInIface(v reflect.Value, depth int) bool {
 		}
 	}
 	return false
+}
+
+// switchSink forwards to the sink of the current case.
+type switchSink struct{ structform.ExtVisitor }
+
+var (
+	sharedSink = &switchSink{}
+	sharedIt   *gotype.Iterator
+)
+
+func foldShared(c *run.C, v reflect.Value, sink structform.Visitor) (err error, ok bool) {
+	sharedSink.ExtVisitor = structform.EnsureExtVisitor(sink)
+	if sharedIt == nil {
+		it, ierr := gotype.NewIterator(sharedSink)
+		if ierr != nil {
+			return ierr, true
+		}
+		sharedIt = it
+	}
+	ok = c.Guard("Iterator.Fold(shared)", func() { err = sharedIt.Fold(v.Interface()) })
+	if !ok || err != nil {
+		sharedIt = nil // an iterator is not demanded to survive an error or a panic
+	}
+	return err, ok
 }
